@@ -4,10 +4,12 @@ import (
 	"context"
 	"crypto/rand"
 	"crypto/sha256"
+	"encoding/asn1"
 	"fmt"
 	"sync"
 	"time"
 
+	tss "github.com/IBM/TSS/types"
 	math "github.com/IBM/mathlib"
 )
 
@@ -206,6 +208,49 @@ func (e *evilBLS) KeyGen(ctx context.Context) ([]byte, error) {
 	case "reveal-mismatch":
 		revealed = other
 	}
+	if s == "empty-commit-rush" {
+		// a commitment without content first; the honest parties then hold "a commitment" of everybody and reveal; having seen
+		// their keys the deviating party solves for the key that makes the threshold key one of its own choosing, commits to it
+		// (a second commitment) and reveals it
+		e.send([]byte{2}, true, 0)
+		if !e.wait(ctx, func() bool { return len(e.reveals) >= n-1 }) {
+			return nil, fmt.Errorf("deviating party: the honest parties did not reveal")
+		}
+		points := make([]int64, n)
+		for i := range points {
+			points[i] = int64(i + 1)
+		}
+		lag := func(i int64) *math.Zr {
+			prod := evilCurve.NewZrFromInt(1)
+			for _, j := range points {
+				if j == i {
+					continue
+				}
+				den := evilCurve.ModSub(evilCurve.NewZrFromInt(j), evilCurve.NewZrFromInt(i), evilCurve.GroupOrder)
+				den.InvModP(evilCurve.GroupOrder)
+				prod = prod.Mul(evilCurve.NewZrFromInt(j).Mul(den))
+			}
+			return prod
+		}
+		target := evilCurve.GenG2.Mul(evilCurve.NewRandomZr(rand.Reader)) // the key the deviating party wants everybody to end up with
+		acc := target.Copy()
+		e.mu.Lock()
+		for i, p := range e.parties {
+			if int(p) == e.node {
+				continue
+			}
+			if pt, err := evilCurve.NewG2FromBytes(e.reveals[p]); err == nil {
+				acc.Sub(pt.Mul(lag(int64(i + 1))))
+			}
+		}
+		e.mu.Unlock()
+		li := lag(int64(myIdx))
+		li.InvModP(evilCurve.GroupOrder)
+		chosen := acc.Mul(li).Bytes()
+		e.send(enc(2, commitOf(chosen)), true, 0)
+		e.send(enc(3, chosen), true, 0)
+		return nil, fmt.Errorf("deviating party does not produce a key")
+	}
 	if s != "early-reveal" {
 		switch s {
 		case "equivocate-commit":
@@ -272,4 +317,54 @@ func (e *evilBLS) KeyGen(ctx context.Context) ([]byte, error) {
 	}
 	e.wait(ctx, func() bool { return len(e.reveals) >= n-1 })
 	return nil, fmt.Errorf("deviating party does not produce a key")
+}
+
+// tamperPS is a PS participant that follows the protocol (a real ps.TPS) except that it alters what it sends: one component of
+// the share dealt to each victim is moved off the polynomial.
+type tamperPS struct {
+	inner tss.KeyGenerator
+	plan  *byzPlan
+}
+
+type psXYs struct {
+	X  []byte
+	Ys [][]byte
+}
+
+func (t *tamperPS) ClassifyMsg(b []byte) (uint8, bool, error)  { return t.inner.ClassifyMsg(b) }
+func (t *tamperPS) OnMsg(b []byte, from uint16, bc bool)       { t.inner.OnMsg(b, from, bc) }
+func (t *tamperPS) KeyGen(ctx context.Context) ([]byte, error) { return t.inner.KeyGen(ctx) }
+func (t *tamperPS) Init(parties []uint16, threshold int, sendMsg func(msg []byte, isBroadcast bool, to uint16)) {
+	victim := func(p uint16) bool {
+		for _, v := range t.plan.Victims {
+			if uint16(v) == p {
+				return true
+			}
+		}
+		return false
+	}
+	bump := func(b []byte) []byte {
+		z := evilCurve.NewZrFromBytes(b).Plus(evilCurve.NewZrFromInt(1))
+		z.Mod(evilCurve.GroupOrder)
+		return z.Bytes()
+	}
+	t.inner.Init(parties, threshold, func(msg []byte, isBroadcast bool, to uint16) {
+		if len(msg) > 1 && msg[0] == 1 && victim(to) {
+			var x psXYs
+			if _, err := asn1.Unmarshal(msg[1:], &x); err == nil && len(x.Ys) > 0 {
+				switch t.plan.Strategy {
+				case "ps-offpoly-share-x":
+					x.X = bump(x.X)
+				case "ps-offpoly-share-y-first":
+					x.Ys[0] = bump(x.Ys[0])
+				case "ps-offpoly-share-y-last":
+					x.Ys[len(x.Ys)-1] = bump(x.Ys[len(x.Ys)-1])
+				}
+				if b, err := asn1.Marshal(x); err == nil {
+					msg = append([]byte{1}, b...)
+				}
+			}
+		}
+		sendMsg(msg, isBroadcast, to)
+	})
 }
